@@ -417,4 +417,21 @@ def fifo_query(ctx, name, kind, N, k, threads, oracle, slack, timeout_s, drain=T
         rec["inputs"] = {nm: model.eval(v, model_completion=True).as_long() for nm, v in w.inputs.items()}
         rec["results"] = {"%d.%d" % (t, j): {kx: str(model.eval(vx, model_completion=True)) for kx, vx in res[t][j].items()} for t in res for j in range(len(res[t]))}
         rec["replay_spec"] = {"object": kind, "N": N, "prefill": k, "threads": threads, "drain": N if drain else 0}
+        # ---- replay against the real code
+        import replay
+        inp = rec["inputs"]
+        progs = []
+        for t, prog in enumerate(threads):
+            progs.append([("send:%d" % inp["v%d_%d" % (t, j)]) if op == "send" else op for j, op in enumerate(prog)])
+        prefill_vals = [inp["pre%d" % i] for i in range(k)]
+        origins = [inp["origin"], inp.get("origin2", inp["origin"])]
+        if kind in ("AtomicZeroCopy", "FullSyncZeroCopy"): origins = [inp.get("origin2", 0), inp["origin"]]     # creation order: allocator's free list first, then the queue
+        segs = replay.segments_from_trace(rec["trace"], skip_threads=(len(threads),) if drain else ())
+        found, why, tried = replay.search(kind, N, origins, prefill_vals, progs, ["drain"] * N if drain else [], segs,
+                                          replay.fifo_symptom(oracle, N, prefill_vals))
+        rec["native_runs"] = tried
+        if found:
+            rec.update(verdict="violation", symptom=found["symptom"], replayed=True, native_history=found["history"]["events"], native_segments=found["segments"])
+        else:
+            rec.update(verdict="inconclusive", why="model counterexample did not reproduce natively: " + why)
     return rec
